@@ -1,5 +1,6 @@
 import Jwt.Lemmas.Policy
 import Jwt.Props.C02
+import Jwt.Lemmas.Pipeline
 /-!
 # C19 — a verification callback can observe the token but not bend the verdict
 
@@ -62,5 +63,14 @@ def wiper : CheckerCb := fun _ _ _ cfg => (0, .obj [], .obj [], cfg)
 example : ∀ h c a cfg, (wiper h c a cfg).1 = 0 ∧ (wiper h c a cfg).2.2.2 = cfg := fun _ _ _ _ => ⟨rfl, rfl⟩
 def refuser : CheckerCb := fun h c _ cfg => (1, h, c, cfg)
 example : ∀ h c a cfg, (refuser h c a cfg).1 ≠ 0 := fun _ _ _ _ => by simp [refuser]
+
+/-- **A non-zero callback result ends the call, in the code as written.** In the decision skeleton generated from
+`jwt_checker_verify` a callback that is installed and returns non-zero leads to `return 1` with a message on the
+checker, whatever `__setkey_check` or the rest would say; and the callback is only reached when parsing succeeded.
+(`C14_verify_exits_are_source` ties the model's `verify` to this skeleton.) -/
+theorem C19_cb_nonzero_is_source (a b c : Bool) (n : Nat) :
+    Jwt.Generated.Pipeline.checkerVerify false false false false false false false false a n = (1, true, false) ∧
+    (∀ cbNull, Jwt.Generated.Pipeline.checkerVerify false false false false true cbNull b c a n = (1, false, true)) :=
+  checkerVerify_cb_nonzero a b c n
 
 end Jwt.Props.C19
